@@ -19,7 +19,7 @@ func (c07) Size(tier string) Size {
 	if tier == "thorough" {
 		return Size{Batches: 32, Cases: 15000}
 	}
-	return Size{Batches: 8, Cases: 2000}
+	return Size{Batches: 16, Cases: 4000}
 }
 func (c07) Rule() string {
 	return "case = schema (soft/struct-backed types, relationship names that are string prefixes of one another, occasionally a dangling relationship or a field-less type) + a raw URL built from a schema-aware grammar: 0-6 fragments incl. relationships/meta forms, unknown types and relationships; any combination, repetition and order of fields[], sort, include, page[], filter and unknown parameters; empty values (filter=, sort=-, fields[t]=), repeated sort rules (more than 3x the attribute count), unknown and duplicate names, include paths to depth 6, percent-escapes and malformed ones. Entry points NewURLFromRaw, NewSimpleURL+NewURL, NewSimpleURL+NewParams and NewRequest. Oracle: no panic; URL xor error; on success the resource type is in the schema, the field selection / inclusion paths / sorting rules satisfy the statement's clauses, judged against my own reading of the schema and of the generated parameter list. Non-trivial = URL parsed with >= 2 query parameters, or rejected with a jsonapi error; distinct = raw URL + schema hash."
